@@ -314,13 +314,20 @@ class Shelxfile():
         print(f"*** Syntax error found in file {self.resfile}, line {self.error_line_num + 1} ***")
 
     def _find_included_files(self) -> None:
-        # Tracks the file names of included files in order to find recursive inclusion:
-        includefiles = []
+        # Tracks the include files that are open at the current line (name, number of their last line) in order to
+        # find recursive inclusion. The same file may be included any number of times one after the other:
+        open_files: List[list] = []
         for line_num, line in enumerate(self._reslist):
+            while open_files and open_files[-1][1] < line_num:
+                open_files.pop()
             if line.startswith('+'):
                 try:
+                    includefiles = [name for name, _ in open_files]
                     file_included_in_includefile = self._read_included_file(includefiles, line)
                     if file_included_in_includefile:
+                        for entry in open_files:
+                            entry[1] += len(file_included_in_includefile)
+                        open_files.append([includefiles[-1], line_num + len(file_included_in_includefile)])
                         for line_num_includefile, l in enumerate(file_included_in_includefile):
                             reslist_position = line_num + 1 + line_num_includefile
                             # '+filename' include files are not copied to res file,
